@@ -232,11 +232,11 @@ Options:
 		{{- $default := .DefaultFunc}}
 		targets := map[string]string{
 		{{- range .Funcs}}
-			"{{lowerFirst .TargetName}}{{if and (eq .Name $default.Name) (eq .Receiver $default.Receiver)}}*{{end}}": {{printf "%q" .Synopsis}},
+			"{{lowerFirst .TargetName}}{{if and (eq .Name $default.Name) (eq .Receiver $default.Receiver) (eq .ImportPath $default.ImportPath) (eq .PkgAlias $default.PkgAlias)}}*{{end}}": {{printf "%q" .Synopsis}},
 		{{- end}}
 		{{- range .Imports}}{{$imp := .}}
 			{{- range .Info.Funcs}}
-			"{{lowerFirst .TargetName}}{{if and (eq .Name $default.Name) (eq .Receiver $default.Receiver)}}*{{end}}": {{printf "%q" .Synopsis}},
+			"{{lowerFirst .TargetName}}{{if and (eq .Name $default.Name) (eq .Receiver $default.Receiver) (eq .ImportPath $default.ImportPath) (eq .PkgAlias $default.PkgAlias)}}*{{end}}": {{printf "%q" .Synopsis}},
 			{{- end}}
 		{{- end}}
 		}
@@ -379,8 +379,10 @@ Options:
 				var aliases []string
 				{{- $name := .Name -}}
 				{{- $recv := .Receiver -}}
+				{{- $ipath := .ImportPath -}}
+				{{- $palias := .PkgAlias -}}
 				{{range $alias, $func := $.Aliases}}
-				{{if and (eq $name $func.Name) (eq $recv $func.Receiver)}}aliases = append(aliases, "{{$alias}}"){{end -}}
+				{{if and (eq $name $func.Name) (eq $recv $func.Receiver) (eq $ipath $func.ImportPath) (eq $palias $func.PkgAlias)}}aliases = append(aliases, "{{$alias}}"){{end -}}
 				{{- end}}
 				if len(aliases) > 0 {
 					_fmt.Printf("Aliases: %s\n\n", _strings.Join(aliases, ", "))
@@ -398,8 +400,10 @@ Options:
 				var aliases []string
 				{{- $name := .Name -}}
 				{{- $recv := .Receiver -}}
+				{{- $ipath := .ImportPath -}}
+				{{- $palias := .PkgAlias -}}
 				{{range $alias, $func := $.Aliases}}
-				{{if and (eq $name $func.Name) (eq $recv $func.Receiver)}}aliases = append(aliases, "{{$alias}}"){{end -}}
+				{{if and (eq $name $func.Name) (eq $recv $func.Receiver) (eq $ipath $func.ImportPath) (eq $palias $func.PkgAlias)}}aliases = append(aliases, "{{$alias}}"){{end -}}
 				{{- end}}
 				if len(aliases) > 0 {
 					_fmt.Printf("Aliases: %s\n\n", _strings.Join(aliases, ", "))
